@@ -22,7 +22,7 @@ func init() {
 	core.Register(&core.Check{
 		ID:    "C04",
 		Level: "exploration",
-		Rule: "the command tree is discovered from the real binary built from the working tree (pdfcpu --help recursively); every leaf whose usage names outFile / outFileJSON / outDir is driven from a template table of valid arguments (leaves without a template are listed as coverage gaps); output state in {absent, present, present + --force, omitted (in place)} for file outputs and {empty, non-empty, non-empty + --force} for directory outputs; full product; oracle: present without --force => exit status != 0, a refusal message, and the whole scratch tree byte- and mode-identical; every other state proceeds (exit 0, output exists); " +
+		Rule: "the command tree is discovered from the real binary built from the working tree (pdfcpu --help recursively); every leaf whose usage names outFile / outFileJSON / outDir is driven from a template table of valid arguments (leaves without a template are listed as coverage gaps); output state in {absent, present, present + --force, omitted (in place), equal to the input} for file outputs and {empty, non-empty, non-empty + --force} for directory outputs x output name {plain, a name containing glob metacharacters and a space}; full product; oracle: present without --force => exit status != 0, a refusal message, and the whole scratch tree byte- and mode-identical; every other state proceeds (exit 0, output exists); " +
 			"non-trivial = a run with a pre-existing output (with or without --force)",
 		Assume: []string{"the binary is rebuilt from /repo's working tree by bin/build before the check runs"},
 		Run:    runC04,
@@ -326,23 +326,26 @@ func runC04(r *core.R) {
 	}
 	type job struct {
 		path, state string
+		special     bool // output name with characters that are special to glob / shell style matching
 	}
 	var jobs []job
 	for _, n := range names {
 		t := tmpl[n]
 		if t.outKind == "dir" {
 			for _, st := range []string{"empty", "nonempty", "nonempty+force"} {
-				jobs = append(jobs, job{n, st})
+				jobs = append(jobs, job{n, st, false})
+				jobs = append(jobs, job{n, st, true})
 			}
 		} else {
 			for _, st := range []string{"absent", "present", "present+force"} {
-				jobs = append(jobs, job{n, st})
+				jobs = append(jobs, job{n, st, false})
+				jobs = append(jobs, job{n, st, true})
 			}
 			if hasArg(t.args, "IN") {
-				jobs = append(jobs, job{n, "equal"})
+				jobs = append(jobs, job{n, "equal", false})
 			}
 			if t.inplace {
-				jobs = append(jobs, job{n, "omitted"})
+				jobs = append(jobs, job{n, "omitted", false})
 			}
 		}
 	}
@@ -368,6 +371,11 @@ func runC04(r *core.R) {
 			out = "out.json"
 		}
 		outdir := "outdir"
+		if j.special {
+			// a perfectly ordinary name on disk that happens to be a glob pattern matching nothing
+			outdir = "scans[2024] *"
+			out = "report[v2] *" + filepath.Ext(out)
+		}
 		force := strings.HasSuffix(j.state, "+force")
 		switch j.state {
 		case "present", "present+force":
@@ -395,7 +403,7 @@ func runC04(r *core.R) {
 		if j.state != "absent" && j.state != "empty" && j.state != "omitted" {
 			r.Nontrivial(1)
 		}
-		rep := map[string]any{"command": j.path, "state": j.state, "args": args}
+		rep := map[string]any{"command": j.path, "state": j.state, "args": args, "special_output_name": j.special}
 		var diffs []string
 		for _, d := range fsx.Diff(t0, t1) {
 			if !strings.Contains(d, ".cfg") {
